@@ -459,6 +459,11 @@ def build(case):
             return cnfgen.GraphIsomorphism(G1, G2, nontrivial=case['nontrivial'], formula_class=fc)
         return cnfgen.GraphIsomorphism(G1, G2, formula_class=fc)
     G = _REUSED['G'] if 'G' in _REUSED else mk_input_graph(case['n'], E(case), src)
+    if case.get('flagrepr') == 'int':
+        case = dict(case)
+        for fl_ in ('functional', 'alternative', 'induced', 'symbreak'):
+            if fl_ in case and isinstance(case[fl_], bool):
+                case[fl_] = 1 if case[fl_] else 0
     if fam == 'tseitin':
         ch = tseitin_charges(case)
         if ch is None:
@@ -1321,6 +1326,17 @@ def cases(tier, seed):
     # binary search; a tree, so propagation decides it): 2^19 clauses
     hub = [[1, v] for v in range(2, 22)] + [[2, 22]]
     yield {'fam': 'tseitin', 'n': 22, 'E': hub, 'charges': [True] + [False] * 20 + [True], 'axiom_oracle': True}
+    # ---- the boolean options given as 1 / 0 (truthy, but not the object True)
+    for n, es in scope.simple_graphs_upto(4):
+        if n < 2:
+            continue
+        for fam in ('kclique', 'kcliquebin', 'ramsey', 'domset', 'kcolor'):
+            for c in family_cases(fam, n, es, 3, 16):
+                if 'src' in c or c.get('cls', 'CNF') != 'CNF':
+                    continue
+                c = dict(c)
+                c['flagrepr'] = 'int'
+                yield c
 
 
 # ==================================================================== shards
